@@ -36,8 +36,11 @@ def _check(job):
         with quiet():
             inputs, clim = dsreplay.load(obj, fmt, variant)
         iv = verif.util.get_intervals(obj["cfg"]["bt"], np.array([mat.num(obj["cfg"]["t"]), mat.num(obj["cfg"]["u"])]))[0]
-        for mname, per_axis in obj["scores"].items():
-            if mname in obj.get("impl", {}):
+        import verif.aggregator
+        todo = [(mname, "mean", per_axis) for mname, per_axis in obj["scores"].items()]
+        todo += [(mname, g, per_axis) for g, per_metric in obj.get("aggscores", {}).items() for mname, per_axis in per_metric.items()]
+        for mname, aggname, per_axis in todo:
+            if aggname == "mean" and mname in obj.get("impl", {}):
                 per_axis = obj["impl"][mname]      # formula findings of C05 (alphaindex, leps): held to the as-implemented operator here
             for a, matrix in enumerate(per_axis):
                 axis = verif.axis.get(AXES[a])
@@ -51,6 +54,8 @@ def _check(job):
                             else:
                                 data = dsreplay.make_data(obj, inputs, clim)
                             m = verif.metric.get(mname)
+                            if aggname != "mean":
+                                m.aggregator = verif.aggregator.get(aggname)
                             got = m.compute(data, i, axis, iv)
                         for k, row in enumerate(matrix):
                             n += 1
@@ -58,11 +63,11 @@ def _check(job):
                             g = float(np.ma.filled(got[k], np.nan)) if np.ma.is_masked(got[k]) else float(got[k])
                             tol = 2e-6 if fmt != "text" else 1e-9
                             if not expr.agrees(want, g, rtol=tol):
-                                site = "score:%s" % mname
+                                site = "score:%s" % mname + ("" if aggname == "mean" else ":agg-" + aggname)
                                 if want == "undef":
-                                    site = "score:%s:number-from-no-valid-case" % mname
-                                bad(site, "%s input %d axis %s slice %d, missing encoded as %s (%s)%s: expected %r observed %r"
-                                    % (mname, i + 1, AXES[a], k + 1, enc, fmt, ", all scores on one Data object" if shared else "", want, g),
+                                    site = "score:%s:number-from-no-valid-case" % mname + ("" if aggname == "mean" else ":agg-" + aggname)
+                                bad(site, "%s" % (mname if aggname == "mean" else mname + " -agg " + aggname) + " input %d axis %s slice %d, missing encoded as %s (%s)%s: expected %r observed %r"
+                                    % (i + 1, AXES[a], k + 1, enc, fmt, ", all scores on one Data object" if shared else "", want, g),
                                     metric=mname, axis=AXES[a], slice=k + 1, input=i + 1, shared=bool(shared))
                     except SystemExit:
                         bad("score:error-exit", "%s axis %s input %d ended in an error exit" % (mname, AXES[a], i + 1), metric=mname)
@@ -101,6 +106,9 @@ def run(ctx):
         ctx.evaluations += n
         for site, detail, rep in divs:
             ctx.diverge(site, rep, detail=detail)
+    # pre-aggregation (-T): a window holding a missing value is missing, whichever statistic accumulates it
+    from harness.checks import dscommon
+    dscommon.run_family(ctx, "C15T", fmt="text", variant={"missing_token": "NA"}, limit=(60 if ctx.tier == "quick" else None), always_nontrivial=True)
     # missing values in the probabilistic fields (cdf, quantiles, ensemble members, pit): the end-to-end cases of C08's generator
     from harness.checks import c08
     c08._run(ctx, "ens", "small", limit=(400 if ctx.tier == "quick" else None))
